@@ -484,6 +484,71 @@ def str_contexts(reduced=False):
     return c
 
 
+# String values with leading, trailing and inner runs of spaces, and a lone space: "value is the
+# value to assign", "true is the output string", "sep is the separator placed between each
+# output string" - nothing in the documentation trims a string parameter, so every place that
+# takes or produces a string must hand it on unchanged, in ASM mode as in HTML mode.  (The two
+# documented exceptions are modelled: the #WHILE body and a #DEF macro with flags&2 are stripped.)
+SPACED = (' x', 'x ', ' x ', 'a  b', ' ')
+
+
+def space_contexts():
+    """Every place a macro takes or produces a string, as a function of that string."""
+    n = num
+    i = F('i')
+
+    def fmt(*names):
+        parts = [('lit', '<')]
+        for j, (name, key) in enumerate(names):
+            if j:
+                parts.append(('lit', '|'))
+            parts.append(('ff', name, key, ''))
+        return ('FORMAT', n(0), tuple(parts) + (('lit', '>'),))
+    defz = lambda flags, body: ('DEF', flags, 'Z', (), (('q', None),), body)
+    return [
+        # #LET string variables (whole value, inside a value, produced by a nested macro) and string dictionaries
+        lambda s: S(('LET', 't$', s), fmt(('t$', None))),
+        lambda s: S(('LET', 't$', S('p', s, 'q')), fmt(('t$', None))),
+        lambda s: S(('LET', 't$', S(('IF', n(1), s, None))), fmt(('t$', None))),
+        lambda s: S(('LET', 't$', S(('MAP', n(1), lit('d'), ((n(1), s),)))), fmt(('t$', None))),
+        lambda s: S(('LETD', 'k$', s, ((n(1), s),)), fmt(('k$', 1), ('k$', 9))),
+        lambda s: S(('LETD', 'k$', lit(''), ((n(1), s), (n(2), lit('u')))), fmt(('k$', 1), ('k$', 2), ('k$', 9))),
+        lambda s: S(('LETD', 'k$', lit('?'), ((n(1), lit('u')),)), ('LETK', 'k$', n(2), s), fmt(('k$', 1), ('k$', 2))),
+        # #FORMAT text
+        lambda s: ('FORMAT', n(0), tuple(s)),
+        lambda s: ('FORMAT', n(2), (('lit', '<'),) + tuple(s) + (('ff', 'a', None, ''),) + tuple(s) + (('lit', '>'),)),
+        # outputs of #IF and #MAP
+        lambda s: ('IF', n(1), s, lit('no')),
+        lambda s: ('IF', n(0), lit('yes'), s),
+        lambda s: ('IF', n(1), s, None),
+        lambda s: ('MAP', n(2), lit('x'), ((n(1), lit('p')), (n(2), s))),
+        lambda s: ('MAP', n(9), s, ((n(1), lit('p')),)),
+        # #FOR / #FOREACH bodies, separators and final separators (and the comma flags around a separator)
+        lambda s: ('FOR', n(1), n(3), None, None, 'n', S(LV()), s, None),
+        lambda s: ('FOR', n(1), n(3), None, None, 'n', S(LV()), lit(';'), s),
+        lambda s: ('FOR', n(1), n(3), None, n(1), 'n', S(LV()), s, s),
+        lambda s: ('FOR', n(1), n(3), None, n(2), 'n', S(LV()), s, None),
+        lambda s: ('FOR', n(1), n(2), None, None, 'n', S(s, LV(), s), lit(';'), None),
+        lambda s: ('FOREACH', (lit('p'), lit('q'), lit('r')), 'v', S(LV('v')), s, None),
+        lambda s: ('FOREACH', (lit('p'), lit('q'), lit('r')), 'v', S(LV('v')), lit(';'), s),
+        lambda s: ('FOREACH', (s, lit('q'), s), 'v', S('(', LV('v'), ')'), lit(';'), None),
+        lambda s: ('FOREACH', (lit('p'), lit('q')), 'v', S(s, LV('v'), s), None, None),
+        # #DEF bodies and string arguments; flags&2 strips the output, flags&1 uses replacement fields
+        lambda s: S(defz(None, S('<', s, ('arg', 'q', 1), s, '>')), ('CALL', 'Z', (), (lit('v'),))),
+        lambda s: S(defz(None, S('<', ('arg', 'q', 1), '>')), ('CALL', 'Z', (), (s,))),
+        lambda s: S(defz(n(1), S('<', ('arg', 'q', 2), '>')), ('CALL', 'Z', (), (s,))),
+        lambda s: S(defz(n(2), S(('arg', 'q', 1))), '<', ('CALL', 'Z', (), (s,)), '>'),
+        lambda s: ('CALL', 'M', ((None, n(1)),), (s,)),
+        lambda s: ('CALL', 'T', (), (s, s)),
+        # #N affixes, #WHILE body (stripped), neighbours of #CHR / #STR / #SPACE / #PEEK
+        lambda s: ('N', n(15), None, None, n(1), n(1), s, s),
+        lambda s: S(('LET', 'i', n(2)), '<', ('WHILE', i, S(s, 'w', s, ('LET', 'i', B('-', i, n(1))))), '>'),
+        lambda s: S(s, ('CHR', n(65), None), s, ('CHR', n(32), n(1)), s),
+        lambda s: S(('STR', n(40018), None, None, None), s, ('STR', n(40010), None, None, None), s, ('PEEK', n(40028))),
+        lambda s: S(s, ('SPACE', n(2), 0), s, EV(n(7)), s),
+    ]
+
+
 def hash_contexts():
     n = num
     return [
@@ -542,12 +607,19 @@ def macro_cases(tier, env_state):
     d2 = body(None, ictx, i1) + body(None, sctx, d1) + [S(loop(b)) for b in open2] + [S(each(b)) for b in open2]
     d2 += body(None, hctx, i1) + body(None, hsctx, d1)
     d2 += C
+    # spaced strings in every string place (depth 1), and those inside the reduced string
+    # contexts (depth 2; thorough: on to depth 3 / 4 like everything else)
+    sp = [lit(v) for v in SPACED]
+    d1s = body(None, space_contexts(), sp)
+    d2s = body(None, str_contexts(True), d1s)
     i2 = ints_of(d2)
+    if tier != 'quick':
+        d2 = d2 + d2s
     iopen2 = [('imac', b[0]) for b in open2 if len(b) == 1 and (b[0][0] in ('EVAL', 'PEEK') or b[0][:2] == ('CALL', 'W'))]
     open3 = body(None, ictx, iopen2) + body(None, sctx, open2)
     d3 = body(None, ictx, i2) + body(None, sctx, d2) + [S(loop(b)) for b in open3] + [S(each(b)) for b in open3]
     d3 += body(None, hctx, i2) + body(None, hsctx, [x for x in d2 if x not in C])
-    out = [(1, x) for x in d1] + [(2, x) for x in d2] + [(3, x) for x in d3]
+    out = [(1, x) for x in d1] + [(1, x) for x in d1s] + [(2, x) for x in d2] + ([(2, x) for x in d2s] if tier == 'quick' else []) + [(3, x) for x in d3]
     if reduced4:
         ir, sr = int_contexts(True), str_contexts(True)
         i3 = ints_of(d3)
@@ -850,6 +922,30 @@ def tool_probes(hist=()):
     out.append(S(('IF', B('<', num(1), num(2)), lit('a<b & "c"'), None)))
     if not hist:
         out.append(S(('FOR', num(1), num(3), None, None, 'n', S(LV()), lit(' & '), None)))
+    out += tool_space_probes()
+    return out
+
+
+def tool_space_probes():
+    """Spaced strings at tool level.  The writers strip / wrap a whole comment, so every probe
+    carries its own non-space sentinels.  The #LET probes are idempotent (a constant into a
+    scratch variable that no other probe reads), so the repeated expansion of a comment by
+    skool2html does not matter."""
+    n = num
+    f = lambda name, key=None: ('FORMAT', n(0), (('lit', '['), ('ff', name, key, ''), ('lit', ']')))
+    out = []
+    for v in SPACED:
+        s = lit(v)
+        out += [
+            S(('LET', 't$', s), f('t$')),
+            S(('LETD', 'k$', lit(''), ((n(1), s),)), f('k$', 1)),
+            S('[', ('IF', n(1), s, lit('no')), ']'),
+            S('[', ('MAP', n(1), lit('d'), ((n(1), s),)), ']'),
+            S('[', ('FOR', n(1), n(3), None, None, 'n', S(LV()), s, s), ']'),
+            S('[', ('CALL', 'M', ((None, n(1)),), (s,)), ']') if False else S('[', ('FOREACH', (lit('p'), lit('q')), 'v', S(LV('v'), s), None, None), ']'),
+        ]
+    out.append(S('[', ('STR', n(40018), None, None, None), ']'))
+    out.append(S('[', ('CHR', n(32), n(1)), ('CHR', n(65), n(1)), ('CHR', n(32), n(1)), ']'))
     return out
 
 
@@ -1305,8 +1401,10 @@ def run(tier, seed):
             'bare (unparenthesised) integer parameters are used only where the following character cannot extend them (the documentation recommends parentheses otherwise)',
             'excluded as undocumented: the loop variable inside a #FOR separator with flags&4; zero step; negative #N values / negative values in base 2/16 / zero padding '
             'of negative values; #MAP or #LET dictionary with duplicate keys; #STR with flag 8 when a zero or bit-7 byte precedes the end marker; #STR characters outside '
-            'plain ASCII (and 94/96/#/&/</>); empty parameters when delimiter == separator; whitespace at the edges of a #LET value (ASM strips it, HTML keeps it); '
+            'plain ASCII (and 94/96/#/&/</>); empty parameters when delimiter == separator; '
             '#FORMAT case conversion of nested macro source; #POPS on an empty stack; replacement fields of undefined variables; POKEname for a name pushed more than once',
+            'no string parameter is trimmed (nothing in the documentation says so): spaced values must come out unchanged in both modes; the documented exceptions '
+            '(#WHILE body, #DEF flags&2) are modelled; white space at the edges of a #DEF body or of a #DEF string default is syntax (not generated)',
             '#PC at the writer seam is set by the harness (writer.pc); its per-position semantics are checked at tool level',
             '#PC in the comment of a multi-instruction {..} group is taken to be the address of the group\'s first instruction (the documentation says "the address of the '
             'instruction"); mid-block comments are placed only between comment units, never inside a group',
